@@ -45,7 +45,8 @@ def stream_dict(s):
 def tree_dict(t, depth=0):
     if t is None:
         return None
-    typ = t.get("type") or ("Site" if depth == 0 else "Process Zone")
+    # the generic type "Zone" (and a blank one) is legal for every node below the root; which spelling a node gets is fixed by its name and depth
+    typ = t.get("type") or ("Site" if depth == 0 else ["Process Zone", "Zone", "Process Zone", ""][(len(t["name"]) + depth) % 4])
     return dict(name=t["name"], type=typ, children=[tree_dict(c, depth + 1) for c in t["children"]] if t["children"] is not None else None)
 
 
